@@ -56,12 +56,14 @@ struct cuda_device_array {
         owning_data_t & operator=(const owning_data_t & o)
         {
             m_size = o.m_size;
-            m_ptr = utility::cuda::device_copy_d2d(o.m_ptr, m_size);
+            m_ptr = utility::cuda::device_copy_d2d(o.m_ptr.get(), m_size);
+
+            return *this;
         }
 
         owning_data_t(const owning_data_t & o)
             : m_size(o.m_size)
-            , m_ptr(utility::cuda::device_copy_d2d(o.m_ptr, m_size))
+            , m_ptr(utility::cuda::device_copy_d2d(o.m_ptr.get(), m_size))
         {
             assert(m_size == 0 || m_ptr);
 
